@@ -238,6 +238,37 @@ def r1_offset_exactly_once(ctx):
     tries = [n for n in g.nodes if n.kind == "handler"]
     ok = len(inc) == 1 and sym.canon(inc[0].ast.value) == "buff.n_lines" and all(g.path([inc[0]], [t]) is None for t in tries)
     ctx.ob(rc.where, "the delivered-lines counter advances by the chunk's own line count, after every place that may report an error for this chunk", ok, "", key="C15-R1|counter-order")
+    # who writes the counter: it starts at 0 (lines are counted from the start of the DATA; the whole-file path, which adds nothing, counts the same way) and is
+    # written nowhere but at the one increment above
+    stores = []
+    for mn, mi in ix.modules.items():
+        if not mn.startswith("bionumpy.io"):
+            continue
+        for qn, fi in mi.functions.items():
+            if isinstance(fi.node, ast.Lambda):
+                continue
+            for x in walk_local(fi.node):
+                tg = []
+                if isinstance(x, ast.Assign):
+                    tg = x.targets
+                elif isinstance(x, (ast.AugAssign, ast.AnnAssign)):
+                    tg = [x.target]
+                for t in tg:
+                    for tt in (t.elts if isinstance(t, ast.Tuple) else [t]):
+                        if isinstance(tt, ast.Attribute) and tt.attr == "n_lines_read":
+                            stores.append((fi, x))
+    ctx.floor("stores to the delivered-lines counter", len(stores), 2)
+    for fi, x in stores:
+        if fi.qualname == "NumpyFileReader.__init__":
+            ok = isinstance(x, ast.Assign) and isinstance(x.value, ast.Constant) and x.value.value == 0 and type(x.value.value) is int
+            what = "the delivered-lines counter starts at 0: lines are counted from the start of the data, header lines excluded, exactly as the whole-file path counts them"
+        elif fi.qualname == "NumpyFileReader.read_chunk":
+            ok = isinstance(x, ast.AugAssign) and isinstance(x.op, ast.Add)
+            what = "the counter is only ever advanced (+=) in read_chunk"
+        else:
+            ok = False
+            what = "no other function writes the delivered-lines counter"
+        ctx.ob(f"{fi.module.relpath}:{x.lineno} {fi.qualname}", what, ok, u(x), key=f"C15-R1|counter-store|{fi.qualname}")
     # snapshot before the reader call, reader call outside the try
     dr = ix.func(RD, "NpDataclassReader.read_chunk")
     g = CFG(dr.node)
